@@ -325,6 +325,17 @@ def exApiBuild : TaskT := .mk 20 10 10 [(.mk 21 21 21 [] [], noArgs)] []
 example : (execute (fun _ => .plain []) false none [(exWebBuild, []), (exApiBuild, [])]).1.map Occ.id = [11, 10, 21, 20] := by decide
 example : (execute (fun _ => .plain []) true none [(exWebBuild, []), (exApiBuild, [])]).1.map Occ.id = [11, 10, 21] := by decide
 example : (execute (fun _ => .plain []) false none [(exWebBuild, []), (exApiBuild, [])]).2 = [(11, 0), (10, 3), (21, 2)] := by decide
+/-- a dependency chain much longer than the request list (one requested task, five helpers below it that
+    need not be registered anywhere, the innermost also a post-task of the top): everything runs, depth
+    first; with dedupe on the repeated innermost helper runs once -/
+def exChain0 : TaskT := .mk 0 0 0 [] []
+def exChain1 : TaskT := .mk 1 1 1 [(exChain0, noArgs)] []
+def exChain2 : TaskT := .mk 2 2 2 [] [(exChain1, noArgs)]
+def exChain3 : TaskT := .mk 3 3 3 [(exChain2, noArgs)] []
+def exChain4 : TaskT := .mk 4 4 4 [(exChain3, noArgs)] []
+def exChain5 : TaskT := .mk 5 5 5 [(exChain4, noArgs)] [(exChain0, noArgs)]
+example : (execute (fun _ => .plain []) false none [(exChain5, [])]).1.map Occ.id = [2, 0, 1, 3, 4, 5, 0] := by decide
+example : (execute (fun _ => .plain []) true none [(exChain5, [])]).1.map Occ.id = [2, 0, 1, 3, 4, 5] := by decide
 /-- a nested occurrence (`notify` below `setup` below `build`) satisfies `Sub` -/
 example : Sub (exNotify, noArgs) [(exBuild, noArgs)] :=
   Sub.inPre (d := (exBuild, noArgs)) (by simp) (Sub.inPost (d := (exSetup, noArgs)) (by simp [exBuild, TaskT.pre]) (Sub.here (by simp [exSetup, TaskT.post])))
